@@ -182,9 +182,12 @@ def jobs(prop, tier):
                 dict(SE("sync_db_sc_edge", 2), **f), dict(SS("sync_db_sim", 3, 800, 80), **f)]
     if prop == "C04":
         if q:
-            return [E("list_edge3", "list", 3), E("list_edgeb", "list", 2), E("list_edge", "list", 2, rate=0.25), S("list_sim", "list", 3, 80, 40)]
+            return [E("list_edge3", "list", 3), E("list_edgeb", "list", 2), E("list_edge", "list", 2, rate=0.25), S("list_sim", "list", 3, 80, 40),
+                    # the arrays of a Document (element identity = the unique tag of an inserted primitive)
+                    E("doc_edge", "doc", 2, rate=0.5), S("doc_sim", "doc", 3, 60, 40)]
         return [M("list_mc", "list"), M("list_mc3", "list"), E("list_edge3", "list", 3), E("list_edgeb", "list", 2), E("list_edge", "list", 2),
-                S("list_sim", "list", 3, 800, 50), S("list_sim4", "list", 4, 500, 60)]
+                S("list_sim", "list", 3, 800, 50), S("list_sim4", "list", 4, 500, 60),
+                M("doc_mc", "doc"), E("doc_edge", "doc", 2), E("doc_edgeo", "doc", 2), S("doc_sim", "doc", 3, 600, 50)]
     if prop == "C03":
         if q:
             return [E("list_one_edge", "list", 1), E("map_one_edge", "map", 1), E("counter_one_edge", "counter", 1),
